@@ -109,8 +109,8 @@ _NAMES = ["nonce", "tag", "mode", "logs", "c", "init", "x", "", "résumé", "vgi
 
 # --------------------------------------------------------------------------- strategies
 
-# NB: st.one_of() gives each branch equal weight (and de-duplicates), so weights go through an integer draw.
-_method = st.integers(0, 9).flatmap(
+# NB: st.one_of() gives each branch equal weight (and de-duplicates), so weights go through a uniform index draw.
+_method = st.sampled_from(range(10)).flatmap(
     lambda i: st.sampled_from(["probe", "probe", "unary", "unary", "enumy", "enumy", "prod_h", "exch_h", "__describe__",
                                "__transport_options__"])
     if i < 6
@@ -142,14 +142,28 @@ _other = st.lists(
 )
 _extra = st.lists(st.tuples(st.binary(min_size=0, max_size=6), st.binary(max_size=10)), max_size=3)
 _col = st.tuples(st.sampled_from(_NAMES), st.sampled_from(sorted(_TYPES)), st.integers(0, 5), st.booleans())
-_cols = st.one_of(
-    st.just({"kind": "params"}),
-    st.just({"kind": "params"}),
-    st.builds(lambda i, ty, v: {"kind": "perturb", "i": i, "ty": ty, "v": v}, st.integers(0, 4),
-              st.sampled_from(sorted(_TYPES)), st.integers(0, 5)),
-    st.builds(lambda i, v: {"kind": "badvalue", "i": i, "v": v}, st.integers(0, 4), st.integers(0, 5)),
-    st.builds(lambda cs: {"kind": "free", "cols": cs}, st.lists(_col, max_size=4)),
+_cols = st.sampled_from(range(10)).flatmap(  # sampled_from is uniform (st.integers is biased towards small values)
+    lambda k: st.just({"kind": "params"})
+    if k < 4
+    else st.builds(lambda i, ty, v: {"kind": "perturb", "i": i, "ty": ty, "v": v}, st.integers(0, 4),
+                   st.sampled_from(sorted(_TYPES)), st.integers(0, 5))
+    if k < 6
+    else st.builds(lambda i, v: {"kind": "badvalue", "i": i, "v": v}, st.integers(0, 4), st.integers(0, 5))
+    if k < 8
+    else st.builds(lambda cs: {"kind": "free", "cols": cs}, st.lists(_col, max_size=4))
 )
+_MD_DEFAULT = {"rv": "1", "pv": "ok", "shm_name": "absent", "shm_size": "absent", "shm_off": "absent",
+               "shm_len": "absent", "trace": "absent", "tstate": "absent"}
+
+
+def _focus(md: dict[str, str], focus: str | None) -> dict[str, str]:
+    """Half of the requests perturb at most ONE metadata key, so the rest of the request reaches deeper code."""
+    if focus is None:
+        return md
+    return {**_MD_DEFAULT, **({focus: md[focus]} if focus in md else {})}
+
+
+_md = st.builds(_focus, _md, st.sampled_from([None] * 8 + sorted(_MD_DEFAULT) + ["none"]))
 _request = st.fixed_dictionaries(
     {"m": _method, "md": _md, "other": _other, "extra": _extra, "cols": _cols,
      "rows": st.sampled_from([1, 1, 1, 1, 1, 0, 0, 2, 3])}
